@@ -2,7 +2,7 @@
 Each of is_822_local / is_5321_local / is_5322_local is turned into an automaton by abstract interpretation of
 its own source (lib/scanex.py) and compared, by exhaustive joint exploration, with the mode's specification
 DFA (spec/localpart.py) over the alphabet 0x01-0xFF: language equality for strings of every length."""
-import scanex
+import scanex, forkmap
 from spec import localpart as LP
 from rules import lp
 from report import AnalysisBroken
@@ -14,6 +14,7 @@ MODES = (822, 5321, 5322)
 def run(ck):
     tus = lp.local_units()
     r = ck.rule('O2.1', 'L(is_<mode>_local) == L(spec DFA of the mode) over bytes 0x01-0xFF, all lengths, terminator byte in {@, NUL}', 3)
+    jobs = []; meta = []
     for mode in MODES:
         key = f'src/is_{mode}_local.c'; fname = f'is_{mode}_local'
         if key not in tus: raise AnalysisBroken(f'{key} is not built')
@@ -21,8 +22,14 @@ def run(ck):
         ck.analysed(units=[key], functions=[f'{key}:{fname}'])
         symbols, class_of, classes = lp.alphabet([tu.fn(fname)])
         spec = LP.local_spec(mode)
-        cfg, tr, found = lp.compare_with_spec(ck, r, tu, fname, lambda term: scanex.ScannerMachine(tu, fname, term), spec, symbols,
-                                               (0x40, 0x00), f'{key}:{fname}')
+        for term in (0x40, 0x00):
+            jobs.append(lp.spec_task(tu, (lambda tu, fname: (lambda term: scanex.ScannerMachine(tu, fname, term)))(tu, fname), spec, symbols, term))
+            meta.append((mode, key, fname, tu, symbols))
+    res = forkmap.forkmap(jobs)
+    for mode in MODES:
+        idx = [i for i, m in enumerate(meta) if m[0] == mode]
+        _, key, fname, tu, symbols = meta[idx[0]]
+        cfg, tr, found = lp.report_spec(ck, r, tu, fname, [res[i] for i in idx], f'{key}:{fname}')
         ck.sample({'mode': mode, 'byte_classes': len(symbols), 'configurations': cfg, 'transitions': tr,
                    'class_representatives': [scanex.show([s]) for s in symbols][:60]})
     for c in LP.READING_CHOICES: ck.assume('spec reading: ' + c)
